@@ -104,6 +104,15 @@ CLAIMS = {
             "against the automaton.",
             "flock(2) semantics assumed; a crash between fallocate and the first write of a new file is outside the model",
             "Coq invariant proof over an executable LTS + forced multi-process orderings", "6/C13, App. G"),
+    "C15": ("proof",
+            "Coq (CodecFacts, MetaFacts, CfgFacts): the page decoder inverts the page encoder for every page body and every content of "
+            "the uninitialised bytes, the header codec round-trips, sizes / offsets / magic / type codes are pinned against the GENERATED "
+            "struct field lists, a recorded page size different from the one given to open is refused; the golden files written once by the "
+            "pinned release at 1024 / 4096 / 5000 / 16384 and their legacy-header variants are decoded by the same Gallina functions (the "
+            "legacy checksum by the Gallina SHA3-256) and opened, continued and mis-opened with the library on every run.",
+            "the legacy header round trip (encode_old_meta_page) is executable but not proved; it is exercised on the golden files; "
+            "golden files and python's hashlib are trusted as the record of the old format",
+            "Coq codec theorems over generated layout + golden-file differential (library vs Gallina decoder)", "6/C15"),
     "C16": ("translation_validation",
             "The same histories are replayed under the configuration grid (page size x initial pages x strict x populate) and every call "
             "and every committed file's decoded contents must equal the single reference run, so configurations are pairwise equal; strict "
